@@ -126,8 +126,6 @@ structure SetFrag (E : Env) (st : St) (regs : List Reg) (o : Id) (n : Name) (v :
     (fs : List Field) (f : Field) : Prop where
   ho : st.h.get o = .inst fs
   hf : findField fs n = some f
-  /-- the trait has been materialised (its value is in `__dict__`) -/
-  hset : f.val ≠ .unset
   /-- no `filtered` (`*`, `+metadata`) node in any active registration -/
   noFiltered : ∀ r ∈ regs, r.g.noFiltered = true
   alive : ∀ k, E.dead k = false
@@ -213,6 +211,19 @@ theorem cntList_pos_of_mem (mk : MKind) (g : Graph) (k : HKey) (ns : List Notifi
       have := ih h'
       cases nt <;> simp only [cntList] <;> omega
 
+theorem cnt_pos_of_user (H : Hooks) (o : Observable) (k : HKey) (rc : Nat)
+    (hm : Notifier.user k rc ∈ H.get o) (hrc : 0 < rc) : 0 < cnt H o (.user k) := by
+  unfold cnt
+  generalize H.get o = ns at hm
+  induction ns with
+  | nil => cases hm
+  | cons nt ns ih =>
+    cases hm with
+    | head => simp [cntList, NKey.equals]; omega
+    | tail _ h' =>
+      have := ih h'
+      cases nt <;> simp only [cntList] <;> omega
+
 /-- observers whose observables are instance traits contribute trait maintainers -/
 theorem observables_trait_kind (h : Heap) (ob : Observer) (x : W) (a : Id) (b : Name)
     (hm : Observable.trait a b ∈ okOr [] (observables h ob x)) : ob.mkind = .trait := by
@@ -294,10 +305,15 @@ theorem specCnt_kind_trait (h : Heap) (regs : List Reg) (o : Id) (n : Name) (q :
 
 /-! ### the theorem -/
 
-theorem setField_preserves (E : Env) (st : St) (regs : List Reg) (o : Id) (n : Name) (v : Val) (fresh : Id)
+/-- Core: storing `v` in `o.n` (whose `__dict__` entry / old value is `f.val`, possibly
+`unset` = Uninitialized) and calling the notifiers of `o.n` re-establishes the
+invariant; and storing WITHOUT calling them does so when the value is identical. -/
+theorem fire_preserves (E : Env) (st : St) (regs : List Reg) (o : Id) (n : Name) (v : Val)
     (fs : List Field) (f : Field) (hinv : HooksEqReach st.h st.H regs) (fr : SetFrag E st regs o n v fs f) :
-    HooksEqReach (mutate E st (.setField o n v fresh)).st.h (mutate E st (.setField o n v fresh)).st.H regs ∧
-    (mutate E st (.setField o n v fresh)).err = none := by
+    (HooksEqReach (storeField st.h o n v) (fire E st.H (storeField st.h o n v) o n f.val v).st.H regs ∧
+      (fire E st.H (storeField st.h o n v) o n f.val v).err = none) ∧
+    (f.val = v → HooksEqReach (storeField st.h o n v) st.H regs) ∧
+    (st.H.get (.trait o n) = [] → HooksEqReach (storeField st.h o n v) st.H regs) := by
   obtain ⟨hwf, hcnt⟩ := hinv
   -- the two heaps and the decomposition of every registration's walk
   have hold : fieldVal st.h (some o) n = f.val := fieldVal_of_find fr.ho fr.hf
@@ -376,18 +392,65 @@ theorem setField_preserves (E : Env) (st : St) (regs : List Reg) (o : Id) (n : N
     obtain ⟨r, hr, c', hc', rfl⟩ := visitKeys_shape _ _ _ _ b hb
     obtain ⟨rfl, rfl⟩ := fr.eqStruct c k hm r hr c' hc' hab
     rfl
-  -- now the mutation itself
-  have hset' : (f.val == Val.unset) = false := by
-    cases hv : f.val with
-    | unset => exact absurd hv fr.hset
-    | _ => rfl
-  simp only [mutate, fr.ho, fr.hf]
-  by_cases hemp : (st.H.get (.trait o n)).isEmpty = true
-  · -- no notifier on the trait: plain store; no registration visits it
-    simp only [hemp, if_true]
-    refine ⟨⟨hwf, ?_⟩, trivial⟩
+  refine ⟨?_, ?_, ?_⟩
+  · simp only [fire]
+    have hl : LoopOk E (storeField st.h o n v) f.val v (st.H.get (.trait o n)) :=
+      { alive := fr.alive
+        kinds := by
+          intro nt hnt mk g k e
+          subst e
+          -- by the invariant a maintainer on an instance trait is a trait / trait_added maintainer
+          cases mk with
+          | trait => exact Or.inl rfl
+          | added => exact Or.inr rfl
+          | list =>
+            exfalso
+            have h1 : 0 < cnt st.H (.trait o n) (.maint .list g k) := by
+              unfold cnt
+              exact cntList_pos_of_mem _ _ _ _ hnt
+            rw [hcnt] at h1
+            rw [specCnt_kind_trait st.h regs o n (.maint .list g k) ⟨.list, g, k, rfl, by simp, by simp⟩] at h1; omega
+          | dict =>
+            exfalso
+            have h1 : 0 < cnt st.H (.trait o n) (.maint .dict g k) := by
+              unfold cnt
+              exact cntList_pos_of_mem _ _ _ _ hnt
+            rw [hcnt] at h1
+            rw [specCnt_kind_trait st.h regs o n (.maint .dict g k) ⟨.dict, g, k, rfl, by simp, by simp⟩] at h1; omega
+          | set =>
+            exfalso
+            have h1 : 0 < cnt st.H (.trait o n) (.maint .set g k) := by
+              unfold cnt
+              exact cntList_pos_of_mem _ _ _ _ hnt
+            rw [hcnt] at h1
+            rw [specCnt_kind_trait st.h regs o n (.maint .set g k) ⟨.set, g, k, rfl, by simp, by simp⟩] at h1; omega
+        notName := fr.notName
+        okOld := fr.okOld
+        okNew := fr.okNew }
+    have hle : ∀ o' q, effectSum (blockAt (storeField st.h o n v) f.val o' q) (st.H.get (.trait o n)) ≤ cnt st.H o' q := by
+      intro o' q
+      rw [hmatch, hcnt, specH, sum_map_congr _ _ _ (fun r hr => L3 r hr o' q)]
+      omega
+    obtain ⟨e, w, c⟩ := callTrait_effect E (storeField st.h o n v) o n f.val v _ st.H [] hl hwf hle
+    refine ⟨⟨w, ?_⟩, e⟩
     intro o' q
-    have hnil : st.H.get (.trait o n) = [] := by simpa using hemp
+    have := c o' q
+    rw [hmatch, hmatch, hcnt, specH, sum_map_congr _ _ _ (fun r hr => L3 r hr o' q)] at this
+    rw [specH']
+    omega
+  · -- assigning the identical value: no notifier is called
+    intro hv
+    refine ⟨hwf, ?_⟩
+    intro o' q
+    rw [hcnt, specH, specH']
+    congr 1
+    apply sum_map_congr
+    intro r hr
+    rw [← L3 r hr o' q, hv]
+  · -- no notifier on the trait: no registration visits it
+    intro hnil
+    refine ⟨hwf, ?_⟩
+    intro o' q
     have e1 := hmatch f.val o' q
     have e2 := hmatch v o' q
     rw [hnil] at e1 e2
@@ -396,62 +459,50 @@ theorem setField_preserves (E : Env) (st : St) (regs : List Reg) (o : Id) (n : N
     have : (regs.map (fun r => blocks st.h r.k f.val (visits st.h o n r.g (some r.x)) o' q)).sum = 0 := by
       rw [← sum_map_congr _ _ _ (fun r hr => L3 r hr o' q), ← e1]
     omega
+
+/-- `o.n = v` on a materialised trait preserves the invariant and raises nothing. -/
+theorem setField_preserves (E : Env) (st : St) (regs : List Reg) (o : Id) (n : Name) (v : Val) (fresh : Id)
+    (fs : List Field) (f : Field) (hinv : HooksEqReach st.h st.H regs) (fr : SetFrag E st regs o n v fs f)
+    (hset : f.val ≠ .unset) :
+    HooksEqReach (mutate E st (.setField o n v fresh)).st.h (mutate E st (.setField o n v fresh)).st.H regs ∧
+    (mutate E st (.setField o n v fresh)).err = none := by
+  obtain ⟨hfire, hsame, hnil⟩ := fire_preserves E st regs o n v fs f hinv fr
+  have hset' : (f.val == Val.unset) = false := by
+    cases hv : f.val with
+    | unset => exact absurd hv hset
+    | _ => rfl
+  simp only [mutate, fr.ho, fr.hf]
+  by_cases hemp : (st.H.get (.trait o n)).isEmpty = true
+  · simp only [hemp, if_true]
+    exact ⟨hnil (by simpa using hemp), trivial⟩
   · simp only [hemp, Bool.false_eq_true, if_false, oldValue, hset']
-    by_cases hsame : (f.val == v) = true
-    · -- assigning the identical value: no notifier is called
-      simp only [hsame, if_true]
-      have hv : f.val = v := by simpa using hsame
-      refine ⟨⟨hwf, ?_⟩, trivial⟩
-      intro o' q
-      rw [hcnt, specH, specH']
-      congr 1
-      apply sum_map_congr
-      intro r hr
-      rw [← L3 r hr o' q, hv]
-    · simp only [hsame, Bool.false_eq_true, if_false, fire]
-      have hl : LoopOk E (storeField st.h o n v) f.val v (st.H.get (.trait o n)) :=
-        { alive := fr.alive
-          kinds := by
-            intro nt hnt mk g k e
-            subst e
-            -- by the invariant a maintainer on an instance trait is a trait / trait_added maintainer
-            cases mk with
-            | trait => exact Or.inl rfl
-            | added => exact Or.inr rfl
-            | list =>
-              exfalso
-              have h1 : 0 < cnt st.H (.trait o n) (.maint .list g k) := by
-                unfold cnt
-                exact cntList_pos_of_mem _ _ _ _ hnt
-              rw [hcnt] at h1
-              rw [specCnt_kind_trait st.h regs o n (.maint .list g k) ⟨.list, g, k, rfl, by simp, by simp⟩] at h1; omega
-            | dict =>
-              exfalso
-              have h1 : 0 < cnt st.H (.trait o n) (.maint .dict g k) := by
-                unfold cnt
-                exact cntList_pos_of_mem _ _ _ _ hnt
-              rw [hcnt] at h1
-              rw [specCnt_kind_trait st.h regs o n (.maint .dict g k) ⟨.dict, g, k, rfl, by simp, by simp⟩] at h1; omega
-            | set =>
-              exfalso
-              have h1 : 0 < cnt st.H (.trait o n) (.maint .set g k) := by
-                unfold cnt
-                exact cntList_pos_of_mem _ _ _ _ hnt
-              rw [hcnt] at h1
-              rw [specCnt_kind_trait st.h regs o n (.maint .set g k) ⟨.set, g, k, rfl, by simp, by simp⟩] at h1; omega
-          notName := fr.notName
-          okOld := fr.okOld
-          okNew := fr.okNew }
-      have hle : ∀ o' q, effectSum (blockAt (storeField st.h o n v) f.val o' q) (st.H.get (.trait o n)) ≤ cnt st.H o' q := by
-        intro o' q
-        rw [hmatch, hcnt, specH, sum_map_congr _ _ _ (fun r hr => L3 r hr o' q)]
-        omega
-      obtain ⟨e, w, c⟩ := callTrait_effect E (storeField st.h o n v) o n f.val v _ st.H [] hl hwf hle
-      refine ⟨⟨w, ?_⟩, e⟩
-      intro o' q
-      have := c o' q
-      rw [hmatch, hmatch, hcnt, specH, sum_map_congr _ _ _ (fun r hr => L3 r hr o' q)] at this
-      rw [specH']
-      omega
+    by_cases hsv : (f.val == v) = true
+    · simp only [hsv, if_true]
+      exact ⟨hsame (by simpa using hsv), trivial⟩
+    · simp only [hsv, Bool.false_eq_true, if_false]
+      exact hfire
+
+/-- Reading a trait whose (non-container) default has not been materialised:
+the maintainers hook the default, the invariant holds afterwards, nothing is
+raised and NOTHING is delivered to any handler. -/
+theorem read_preserves (E : Env) (st : St) (regs : List Reg) (o : Id) (n : Name) (d : Val) (fresh : Id)
+    (fs : List Field) (f : Field) (hinv : HooksEqReach st.h st.H regs) (fr : SetFrag E st regs o n d fs f)
+    (hunset : f.val = .unset) (hdflt : f.dflt = .val d) :
+    HooksEqReach (mutate E st (.read o n fresh)).st.h (mutate E st (.read o n fresh)).st.H regs ∧
+    (mutate E st (.read o n fresh)).err = none ∧ (mutate E st (.read o n fresh)).delivered = [] := by
+  obtain ⟨hfire, _, _⟩ := fire_preserves E st regs o n d fs f hinv fr
+  have hu : (f.val == Val.unset) = true := by rw [hunset]; rfl
+  simp only [mutate, fr.ho, fr.hf, hu, if_true, materialise, hdflt]
+  rw [hunset] at hfire
+  refine ⟨hfire.1, hfire.2, ?_⟩
+  -- `old` is Uninitialized: every user notifier is prevented
+  cases hdl : (fire E st.H (storeField st.h o n d) o n .unset d).delivered with
+  | nil => rfl
+  | cons x xs =>
+    exfalso
+    have hx : x ∈ (fire E st.H (storeField st.h o n d) o n .unset d).delivered := by rw [hdl]; exact List.mem_cons_self ..
+    rcases callTrait_delivered E _ o n .unset d _ st.H [] x hx with h1 | ⟨_, _, _, _, hp, _⟩
+    · cases h1
+    · simp [preventTrait] at hp
 
 end TraitsVerif.Model.Obs
